@@ -1,4 +1,373 @@
+/-
+  C05 — property theorems. For every RFC 3339 parser `P`, every input type, every client value,
+  every set of variable / argument definitions (unbounded: structural induction over the mutual
+  inductive `Ty` / `Fields`).
+
+  Hypotheses that recur:
+  * `T.wf` — the *schema* is well-formed: field names of an input object are distinct (a Go map)
+    and every declared default (a raw Go value the schema author supplies, handed to resolvers
+    unchanged) conforms to its own type. Not a property of the request.
+  * `VarsOK defs vars` — every runtime variable value conforms to the variable's declared type;
+    *proved* for the output of `coerceVariableValues` (`variables_conform`).
+  * `usage … = true` — `validateVariables` accepted every variable usage (the document is valid).
+-/
 import ApiFu.C05.Model
 import ApiFu.C05.Spec
+import ApiFu.C05.Lemmas
+
 namespace ApiFu.C05
+
+/-! ## coerced_conforms — whatever a coercion route returns conforms to the type -/
+
+/-- **coerced_conforms (variable route).** `coerceVariableValue(json, T)` = ok x ⇒ x conforms to T:
+    never nil at non-null, a list at a list type (single items wrapped), a declared enum value, a
+    complete field map. All types, all JSON values, both values of the item-to-list flag. -/
+theorem coerced_conforms_variable (P : Parse) (T : Ty) (j : Json) (allow : Bool) (x : GoVal)
+    (hwf : T.wf = true) (h : coerceVar P T j allow = some x) : conforms T x = true :=
+  coerceVar_conforms P T j allow x hwf h
+
+/-- **coerced_conforms (literal route, closed literal).** `coerceLiteral(lit, T, ∅)` = ok x ⇒ x
+    conforms to T, for every literal without variables. -/
+theorem coerced_conforms_literal (P : Parse) (T : Ty) (l : Lit) (allow : Bool) (x : GoVal)
+    (hwf : T.wf = true) (hclosed : containsVar l = false) (h : coerceLit P [] T l allow = some x) :
+    conforms T x = true :=
+  coerceLit_conforms P [] true [] (fun n v hl => by simp at hl) T l allow false x hwf
+    (usage_of_noVar [] true T false l hclosed) h
+
+/-- **coerced_conforms (literal route with variables).** If the variables hold values conforming
+    to their declared types and every usage inside the literal passed `validateVariableUsage`
+    (with the expected types `NewTypeInfo` assigns), the coerced value conforms — in particular
+    an explicit null that reached a nullable variable never surfaces at a non-null position
+    (patches 01, 02). -/
+theorem coerced_conforms_literal_vars (P : Parse) (defs : List VarDef) (unwrap : Bool) (vars : Vars)
+    (hv : VarsOK defs vars) (T : Ty) (l : Lit) (allow ld : Bool) (x : GoVal) (hwf : T.wf = true)
+    (hu : usage defs unwrap T ld l = true) (h : coerceLit P vars T l allow = some x) :
+    conforms T x = true :=
+  coerceLit_conforms P defs unwrap vars hv T l allow ld x hwf hu h
+
+/-- **coerced_conforms (specification).** The reference coercion conforms as well. -/
+theorem coerced_conforms_spec (P : Parse) (T : Ty) (v : CV) (x : GoVal) (hwf : T.wf = true)
+    (h : Spec.coerce P T v = some x) : conforms T x = true :=
+  spec_coerce_conforms P T v x hwf h
+
+-- non-vacuity: a nested single item is wrapped twice and conforms; a null item does not pass [Int!]
+example : coerceVar (fun _ => none) (.list (.list (.scalar .int))) (.num 2) true
+    = some (.list [.list [.int 1]]) := by rfl
+example : conforms (.list (.list (.scalar .int))) (.list [.list [.int 1]]) = true := by rfl
+example : coerceVar (fun _ => none) (.list (.nonNull (.scalar .int))) (.list [.null]) true = none := by rfl
+example : conforms (.list (.nonNull (.scalar .int))) (.list [.nil]) = false := by rfl
+
+/-! ## variables_conform / arguments_conform -/
+
+/-- Well-formed variable definitions: distinct names, well-formed types, constant defaults
+    (`validateVariables` / the parser's "expected constant value"). -/
+def VarDefsOK (defs : List VarDef) : Prop :=
+  noDupNames (defs.map (·.name)) = true ∧
+  ∀ d ∈ defs, d.ty.wf = true ∧ ∀ l, d.dflt = some l → containsVar l = false
+
+/-- **variables_conform.** Every entry of `CoerceVariableValues`' result conforms to the declared
+    type of its variable — whether it came from the JSON value or from the variable's default. -/
+theorem variables_conform (P : Parse) (defs : List VarDef) (raw : List (String × Json)) (vars : Vars)
+    (hd : VarDefsOK defs) (h : coerceVariableValues P defs raw = some vars) : VarsOK defs vars := by
+  intro n v hl
+  obtain ⟨d, hfind, hfd⟩ := collect_lookup_find hd.1 h hl
+  refine ⟨d, hfind, ?_⟩
+  obtain ⟨hwf, hconst⟩ := hd.2 d (List.mem_of_find?_eq_some hfind)
+  simp only [coerceVariable] at hfd
+  cases hr : raw.lookup d.name with
+  | some j =>
+    simp only [hr] at hfd
+    obtain ⟨c, hc, hcv⟩ := Option.map_eq_some_iff.mp hfd
+    cases hcv
+    exact coerceVar_conforms P d.ty j true v hwf hc
+  | none =>
+    simp only [hr] at hfd
+    cases hdf : d.dflt with
+    | none =>
+      simp only [hdf] at hfd
+      split at hfd <;> simp at hfd
+    | some l =>
+      simp only [hdf] at hfd
+      obtain ⟨c, hc, hcv⟩ := Option.map_eq_some_iff.mp hfd
+      cases hcv
+      exact coerced_conforms_literal P d.ty l true v hwf (hconst l hdf) hc
+
+/-- The argument definitions of a field or directive in a well-formed schema. -/
+def ArgDefsOK (defs : List ArgDef) : Prop :=
+  noDupNames (defs.map (·.name)) = true ∧
+  ∀ d ∈ defs, d.ty.wf = true ∧ ∀ dv, d.dflt = some dv → conforms d.ty dv = true
+
+/-- What a resolver may rely on: for every declared argument, a conforming value — or no entry,
+    and then the argument is nullable and has no default. -/
+def ArgsConform (defs : List ArgDef) (m : List (String × GoVal)) : Prop :=
+  ∀ d ∈ defs, match m.lookup d.name with
+    | some v => conforms d.ty v = true
+    | none => isNonNull d.ty = false ∧ d.dflt = none
+
+/-- **arguments_conform.** For a field (or directive) of a well-formed schema, written in a
+    document whose variable usages `validateVariables` accepted, executed with variable values
+    that conform to their declared types: if `CoerceArgumentValues` succeeds, *every* declared
+    argument conforms (literal, variable, nested variable, default, omission alike). -/
+theorem arguments_conform (P : Parse) (unwrap : Bool) (c : Case) (vars : Vars)
+    (args : List (String × GoVal)) (hdefs : ArgDefsOK c.argDefs) (hv : VarsOK c.varDefs vars)
+    (hvalid : variablesValid unwrap c = true)
+    (h : coerceArgumentValues P vars c.args c.argDefs = some args) : ArgsConform c.argDefs args := by
+  intro d hd
+  obtain ⟨hwf, hdflt⟩ := hdefs.2 d hd
+  have hres := collect_lookup_mem (name := fun (d : ArgDef) => d.name) hdefs.1 h d hd
+  simp only [variablesValid, Bool.and_eq_true, List.all_eq_true] at hvalid
+  -- the usage rule for the argument as written (if it is written)
+  have husage : ∀ l, lookupLast d.name c.args = some l →
+      usage c.varDefs unwrap d.ty (argLocDefault c.site d.dflt) l = true := by
+    intro l hl
+    have := hvalid.1.2 (d.name, l) (lookupLast_mem hl)
+    simpa [find_self hdefs.1 hd] using this
+  simp only [coerceArgument] at hres
+  cases hl : args.lookup d.name with
+  | some v =>
+    simp only [hl] at hres ⊢
+    split at hres
+    · -- no value: the declared default
+      cases hdf : d.dflt with
+      | some dv => simp only [hdf] at hres; cases hres; exact hdflt v hdf
+      | none => simp only [hdf] at hres; split at hres <;> simp at hres
+    · cases hav : lookupLast d.name c.args with
+      | none => simp [hav] at hres
+      | some l =>
+        have hu := husage l hav
+        simp only [hav] at hres
+        cases l with
+        | var n =>
+          simp only at hres
+          cases hvl : vars.lookup n with
+          | none => simp [hvl] at hres
+          | some w =>
+            simp only [hvl] at hres
+            split at hres
+            · simp at hres
+            · rename_i hnn
+              cases hres
+              simp only [usage] at hu
+              exact allowed_conforms hv hu hvl (by simpa using hnn)
+        | null =>
+          obtain ⟨x, hx, hxe⟩ := Option.map_eq_some_iff.mp hres; cases hxe
+          exact coerceLit_conforms P c.varDefs unwrap vars hv d.ty _ true _ v hwf hu hx
+        | int z =>
+          obtain ⟨x, hx, hxe⟩ := Option.map_eq_some_iff.mp hres; cases hxe
+          exact coerceLit_conforms P c.varDefs unwrap vars hv d.ty _ true _ v hwf hu hx
+        | float z =>
+          obtain ⟨x, hx, hxe⟩ := Option.map_eq_some_iff.mp hres; cases hxe
+          exact coerceLit_conforms P c.varDefs unwrap vars hv d.ty _ true _ v hwf hu hx
+        | str z =>
+          obtain ⟨x, hx, hxe⟩ := Option.map_eq_some_iff.mp hres; cases hxe
+          exact coerceLit_conforms P c.varDefs unwrap vars hv d.ty _ true _ v hwf hu hx
+        | bool z =>
+          obtain ⟨x, hx, hxe⟩ := Option.map_eq_some_iff.mp hres; cases hxe
+          exact coerceLit_conforms P c.varDefs unwrap vars hv d.ty _ true _ v hwf hu hx
+        | enum z =>
+          obtain ⟨x, hx, hxe⟩ := Option.map_eq_some_iff.mp hres; cases hxe
+          exact coerceLit_conforms P c.varDefs unwrap vars hv d.ty _ true _ v hwf hu hx
+        | list z =>
+          obtain ⟨x, hx, hxe⟩ := Option.map_eq_some_iff.mp hres; cases hxe
+          exact coerceLit_conforms P c.varDefs unwrap vars hv d.ty _ true _ v hwf hu hx
+        | obj z =>
+          obtain ⟨x, hx, hxe⟩ := Option.map_eq_some_iff.mp hres; cases hxe
+          exact coerceLit_conforms P c.varDefs unwrap vars hv d.ty _ true _ v hwf hu hx
+  | none =>
+    simp only [hl] at hres ⊢
+    split at hres
+    · cases hdf : d.dflt with
+      | some dv => simp [hdf] at hres
+      | none =>
+        simp only [hdf] at hres
+        split at hres
+        · simp at hres
+        · rename_i hnn; exact ⟨by simpa using hnn, rfl⟩
+    · cases hav : lookupLast d.name c.args with
+      | none => simp [hav] at hres
+      | some l =>
+        simp only [hav] at hres
+        cases l with
+        | var n =>
+          simp only at hres
+          cases hvl : vars.lookup n with
+          | none => simp [hvl] at hres
+          | some w => simp only [hvl] at hres; split at hres <;> simp at hres
+        | null => simp at hres
+        | int z => simp at hres
+        | float z => simp at hres
+        | str z => simp at hres
+        | bool z => simp at hres
+        | enum z => simp at hres
+        | list z => simp at hres
+        | obj z => simp at hres
+
+
+-- non-vacuity of `arguments_conform`: F-05a's request. A nullable variable with a default is
+-- allowed at `a: Int!`; with an explicit null CoerceArgumentValues now fails (as found it
+-- returned `[("a", nil)]`, which does not conform).
+example :
+    let c : Case := { site := .field, argDefs := [{ name := "a", ty := .nonNull (.scalar .int), dflt := none }],
+                      varDefs := [{ name := "v", ty := .scalar .int, dflt := some (.int 1) }],
+                      args := [("a", .var "v")], raw := [("v", .null)] }
+    variablesValid true c = true ∧ coerceVariableValues (fun _ => none) c.varDefs c.raw = some [("v", .nil)]
+      ∧ coerceArgumentValues (fun _ => none) [("v", .nil)] c.args c.argDefs = none := by
+  refine ⟨by rfl, by rfl, by rfl⟩
+example :
+    let c : Case := { site := .field, argDefs := [{ name := "a", ty := .nonNull (.scalar .int), dflt := none }],
+                      varDefs := [{ name := "v", ty := .scalar .int, dflt := some (.int 1) }],
+                      args := [("a", .var "v")], raw := [] }
+    run (fun _ => none) true c = .invoked [("a", .int 1)] := by rfl
+
+/-! ## The whole request: what the resolver observes -/
+
+/-- **resolver_invoked_only_with_coerced_arguments.** The resolver (directive filter) is invoked
+    only when validation, `CoerceVariableValues` and `CoerceArgumentValues` all succeeded, and then
+    with exactly the coerced map; `invalid`, `reqErr` and `fieldErr` invoke nothing. The same
+    gate guards the cost function (`ValidateCost` runs only on valid documents, patch 06). -/
+theorem resolver_invoked_only_with_coerced_arguments (P : Parse) (unwrap : Bool) (c : Case)
+    (args : List (String × GoVal)) (h : run P unwrap c = .invoked args) :
+    validate P unwrap c = true ∧ ∃ vars, coerceVariableValues P c.varDefs c.raw = some vars ∧
+      coerceArgumentValues P vars c.args c.argDefs = some args := by
+  simp only [run] at h
+  split at h
+  · rename_i hval
+    refine ⟨hval, ?_⟩
+    simp only [coerceCase] at h
+    cases hv : coerceVariableValues P c.varDefs c.raw with
+    | none => simp [hv] at h
+    | some vars =>
+      cases ha : coerceArgumentValues P vars c.args c.argDefs with
+      | none => simp [hv, ha] at h
+      | some a =>
+        refine ⟨vars, rfl, ?_⟩
+        simp [hv, ha] at h
+        rw [ha, h]
+  · simp at h
+
+/-- **arguments_conform (end to end).** In a well-formed schema, whenever `graphql.Execute` calls
+    the resolver of a field — or the filter of a directive — every declared argument it observes
+    conforms to its declared type, whatever mixture of literals, variables, nested variables,
+    defaults, omissions and explicit nulls the client used. -/
+theorem observed_arguments_conform (P : Parse) (unwrap : Bool) (c : Case) (args : List (String × GoVal))
+    (hdefs : ArgDefsOK c.argDefs) (hvt : ∀ d ∈ c.varDefs, d.ty.wf = true)
+    (h : run P unwrap c = .invoked args) : ArgsConform c.argDefs args := by
+  obtain ⟨hval, vars, hvars, hargs⟩ := resolver_invoked_only_with_coerced_arguments P unwrap c args h
+  simp only [validate, Bool.and_eq_true] at hval
+  obtain ⟨⟨_, hvalues⟩, hvariables⟩ := hval
+  have hvd : VarDefsOK c.varDefs := by
+    refine ⟨?_, ?_⟩
+    · simp only [variablesValid, Bool.and_eq_true] at hvariables
+      exact hvariables.1.1
+    · intro d hd
+      refine ⟨hvt d hd, ?_⟩
+      intro l hl
+      simp only [valuesValid, Bool.and_eq_true, List.all_eq_true] at hvalues
+      have := hvalues.2 d hd
+      simp only [hl, Bool.and_eq_true] at this
+      simpa using this.1
+  exact arguments_conform P unwrap c vars args hdefs (variables_conform P c.varDefs c.raw vars hvd hvars)
+    hvariables hargs
+
+/-! ## default_routes — an omitted argument / variable / input field yields exactly the declared default -/
+
+/-- **default_routes (argument).** An argument that is not written, or written as a variable
+    without a runtime value, is exactly its declared default (`schema.Null` ↦ nil). -/
+theorem default_routes_argument (P : Parse) (vars : Vars) (d : ArgDef) (dv : GoVal) (av : Option Lit)
+    (hd : d.dflt = some dv) (hav : av = none ∨ ∃ n, av = some (.var n) ∧ vars.lookup n = none) :
+    coerceArgument P vars d av = some (some dv) := by
+  rcases hav with rfl | ⟨n, rfl, hn⟩ <;> simp [coerceArgument, argHasValue, *]
+
+/-- … and without a default the argument is absent (nullable type) or the field fails (non-null). -/
+theorem default_routes_argument_none (P : Parse) (vars : Vars) (d : ArgDef) (av : Option Lit)
+    (hd : d.dflt = none) (hav : av = none ∨ ∃ n, av = some (.var n) ∧ vars.lookup n = none) :
+    coerceArgument P vars d av = if isNonNull d.ty then none else some none := by
+  rcases hav with rfl | ⟨n, rfl, hn⟩ <;> simp [coerceArgument, argHasValue, *]
+
+/-- **default_routes (variable).** A variable without a JSON value is the coercion of its default
+    literal — the very function the literal route uses. -/
+theorem default_routes_variable (P : Parse) (raw : List (String × Json)) (d : VarDef) (l : Lit)
+    (hd : d.dflt = some l) (hraw : raw.lookup d.name = none) :
+    coerceVariable P raw d = (coerceLit P [] d.ty l true).map some := by
+  simp [coerceVariable, hd, hraw]
+
+/-- **default_routes (input field, all three routes).** A declared field for which the client
+    supplies nothing — no JSON member, no literal entry (or only variables without a runtime
+    value), no member of the abstract value — appears in the result with exactly its default. -/
+theorem default_routes_field (name : String) (ty : Ty) (dv : GoVal) (tl : Option (List (String × GoVal))) :
+    addField name ty (some dv) none tl = tl.map (fun t => (name, dv) :: t) := by
+  simp [addField]
+
+theorem default_routes_field_variable (P : Parse) (name : String) (ty : Ty) (dv : GoVal) (rest : Fields)
+    (m : List (String × Json)) (h : m.lookup name = none) :
+    coerceVarFields P (.cons name ty (some dv) rest) m
+      = (coerceVarFields P rest m).map (fun t => (name, dv) :: t) := by
+  simp [coerceVarFields, h, addField]
+
+theorem default_routes_field_literal (P : Parse) (vars : Vars) (name : String) (ty : Ty) (dv : GoVal)
+    (rest : Fields) (lfs : List (String × Lit))
+    (h : ∀ p ∈ lfs, p.1 = name → isUnsetVar vars p.2 = true) :
+    coerceLitFields P vars (.cons name ty (some dv) rest) lfs
+      = (coerceLitFields P vars rest lfs).map (fun t => (name, dv) :: t) := by
+  have hf : lfs.filter (fun p => p.1 == name && !isUnsetVar vars p.2) = [] := by
+    rw [List.filter_eq_nil_iff]
+    intro p hp
+    by_cases hn : p.1 = name
+    · simp [hn, h p hp hn]
+    · simp [hn]
+  simp [coerceLitFields, hf, mapAll, litProvided, addField]
+
+theorem default_routes_field_spec (P : Parse) (name : String) (ty : Ty) (dv : GoVal) (rest : Fields)
+    (m : List (String × CV)) (h : m.lookup name = none) :
+    Spec.coerceFields P (.cons name ty (some dv) rest) m
+      = (Spec.coerceFields P rest m).map (fun t => (name, dv) :: t) := by
+  simp [Spec.coerceFields, h, addField]
+
+
+/-! ## coerce_eq_spec / route_agreement -/
+
+/-- **coerce_eq_spec (literal route).** For every type and every client value (an unordered map
+    at every object level), `coerceLiteral` of its literal spelling *is* the specification's input
+    coercion — and with the item-to-list flag off (the items of a list value) it is the
+    specification's item rule. After patch 03 the flag is exactly "this value is not an item". -/
+theorem coerce_eq_spec_literal (P : Parse) (T : Ty) (v : CV) (hw : v.wf = true) :
+    coerceLit P [] T v.toLit true = Spec.coerce P T v ∧
+    coerceLit P [] T v.toLit false = Spec.coerceItem P T v :=
+  ⟨by simpa using coerceLit_eq_spec P T v true hw, by simpa using coerceLit_eq_spec P T v false hw⟩
+
+/-- **coerce_eq_spec (variable route).** The same for `coerceVariableValue` of the JSON spelling,
+    for the client values JSON keeps apart at that type (`jsonFaithful`: JSON has one number
+    syntax and no enum syntax — the specification itself lets JSON transports read strings as enum
+    names, so outside this set literal and JSON are different inputs, see the witnesses below). -/
+theorem coerce_eq_spec_variable (P : Parse) (T : Ty) (v : CV) (hw : v.wf = true)
+    (hf : jsonFaithful T v = true) :
+    coerceVar P T v.toJson true = Spec.coerce P T v ∧
+    coerceVar P T v.toJson false = Spec.coerceItem P T v :=
+  ⟨by simpa using coerceVar_eq_spec P T v true hw hf, by simpa using coerceVar_eq_spec P T v false hw hf⟩
+
+/-- **route_agreement.** The literal route and the variable route agree on every client value:
+    the same Go value, or both fail (patches 03 and 04 were needed for this: `[1]` for `[[Int]!]`
+    and `true` for `Int`). -/
+theorem route_agreement (P : Parse) (T : Ty) (v : CV) (allow : Bool) (hw : v.wf = true)
+    (hf : jsonFaithful T v = true) :
+    coerceLit P [] T v.toLit allow = coerceVar P T v.toJson allow := by
+  rw [coerceLit_eq_spec P T v allow hw, coerceVar_eq_spec P T v allow hw hf]
+
+-- non-vacuity and necessity of `jsonFaithful`: the three kinds of value JSON conflates
+example : jsonFaithful (.list (.nonNull (.list (.scalar .int)))) (.list [.int 1]) = true := by rfl
+example : coerceLit (fun _ => none) [] (.list (.nonNull (.list (.scalar .int)))) (CV.toLit (.list [.int 1])) true = none := by rfl
+example : coerceVar (fun _ => none) (.list (.nonNull (.list (.scalar .int)))) (CV.toJson (.list [.int 1])) true = none := by rfl
+example : coerceVar (fun _ => none) (.scalar .int) (CV.toJson (.bool true)) true = none := by rfl
+-- a string where an enum is expected / a float-syntax integer where an Int is expected / a bare
+-- name where a String is expected: the literal is rejected, the JSON spelling is another value
+example : coerceLit (fun _ => none) [] (.enum "Color" ["RED"]) (CV.toLit (.str "RED")) true = none
+    ∧ coerceVar (fun _ => none) (.enum "Color" ["RED"]) (CV.toJson (.str "RED")) true = some (.enumv "RED") := by
+  exact ⟨by rfl, by rfl⟩
+example : coerceLit (fun _ => none) [] (.scalar .int) (CV.toLit (.half 2)) true = none
+    ∧ coerceVar (fun _ => none) (.scalar .int) (CV.toJson (.half 2)) true = some (.int 1) := by
+  exact ⟨by rfl, by rfl⟩
+example : coerceLit (fun _ => none) [] (.scalar .string) (CV.toLit (.enum "RED")) true = none
+    ∧ coerceVar (fun _ => none) (.scalar .string) (CV.toJson (.enum "RED")) true = some (.str "RED") := by
+  exact ⟨by rfl, by rfl⟩
+
 end ApiFu.C05
